@@ -128,6 +128,36 @@ CLAIMS = {
              "identity matrix (same object iff same instance and attribute), topic and event class, the seven class-level uses that must raise "
              "UnboundSignal and garbage-collectability of the owner are recorded from the real code and compared by TLC with the specification's table.",
         design_ref="DESIGN.md §5 C11, §4.4", note="Trusted as C10; gc.collect() for the weak-binding rows. Instances with value-based __eq__/__hash__ are not explored."),
+    "C05": dict(
+        technique="TLA+ spec Startup.tla (controllable gated steps + settle-to-quiescence) composed with the monitor P_C05: TLC enumerates every "
+                  "program of the bounded family with every release order, proves the design satisfies the monitor and state invariants, and "
+                  "exports (program, schedule) pairs that drive real component trees on asyncio/trio; traces validated by TLC (Trace_C05)",
+        text="Model checking of start-up order over all trees of <=3 components with/without prepare()/start() and one-step scripts that publish "
+             "or wait for resources (incl. back-to-back publications), all gate-release orders; the executed pairs are checked by the monitor for: "
+             "whole hierarchy constructed first, prepare before any child, siblings started concurrently (quiescence snapshots), start only after "
+             "every descendant, each method exactly once (also when inherited), return of the root instance only after the root's start(), "
+             "completion of every program the specification can complete, visibility and reverse-order teardown in the surrounding context.",
+        design_ref="DESIGN.md §5 C05, §4.3, Appendix A.1", note="Trusted: TLC, the gate driver with exact quiescence and virtual time. Gate-level schedules are exhaustive in TLC, sampled in quick execution; checkpoint-level interleavings come from bursts and seeded schedulers."),
+    "C06": dict(
+        technique="Startup.tla with the lookup/publication alphabet composed with the monitor P_C06 (TLC: design satisfies the monitor and "
+                  "NoLostWakeup on every program x schedule); sampled (program, schedule) pairs executed on asyncio/trio with bursts, traces "
+                  "validated by TLC (Trace_C06)",
+        text="Waiters, optional and non-startup lookups of (A, m) against publications that match (resource, resource right after an unrelated "
+             "one, sync/async factory, two-type resource, default name remapped through a kind/m alias) or do not (other name, other type), in "
+             "every relative order incl. the same burst; the monitor checks at every quiescent point that nobody waits for something published, "
+             "that nobody is released or failed without a matching publication, that the returned object is the published one (also when it is "
+             "falsy) or the factory's product, and that optional / non-startup lookups never wait.",
+        design_ref="DESIGN.md §5 C06, §4.3", note="Trusted as C05. Publication names are read back from the surrounding context. Quick executes a seeded sample of the TLC-enumerated pairs."),
+    "C07": dict(
+        technique="Startup.tla with faults and timeout composed with the monitor P_C07 (TLC: design satisfies the monitor on every tree x "
+                  "failing (component, phase) x timeout position x schedule); pairs executed on asyncio/trio under virtual time, traces validated "
+                  "by TLC (Trace_C07)",
+        text="Every tree of <=3 (thorough 4) components, every failing component and phase (constructor, prepare, start; the injected exception "
+             "is sometimes itself a ComponentStartError), the timeout striking at every progress state: ComponentStartError with phase, dotted "
+             "path, class and the original exception as cause; no ancestor start(); every suspended component cancelled before start_component "
+             "raises; TimeoutError on timeout; a start-up that finished in time unaffected; no component activity afterwards although all gates "
+             "are opened and the clock advanced; registrations torn down in reverse order with the surrounding context.",
+        design_ref="DESIGN.md §5 C07, §4.3, Appendix A.3", note="Trusted as C05. Exact ties between completion and timeout are excluded; two simultaneous failures are outside the statement."),
 }
 
 PENDING_REASON = "check not built yet in this build session; planned (DESIGN.md §5)"
